@@ -15,7 +15,11 @@ RULE = (
     "instances permutes the output rows, a single instance gives the corresponding batch row, a "
     "sub-selection gives the matching rows, row count/order equal the input, and nested-DataFrame "
     "vs 3-D-array input (at fit and at apply time) give equal output. Apply panels contain "
-    "duplicates of training instances with different labels so that exact ties occur. non-trivial "
+    "duplicates of training instances with different labels so that exact ties occur; nested frames "
+    "carry default, shifted, reversed, shuffled or string row labels and selections keep theirs; "
+    "pad/truncate/interpolate also on unequal-length panels; plus an exhaustive grid over (series "
+    "length x length-related parameter) for PAA, slope, interval / sliding-window segmenters and "
+    "the interpolator. non-trivial "
     "= >= 3 apply instances with a non-identity permutation; distinct = distinct JSON"
 )
 ASSUMPTIONS = ["float outputs compared with rtol 1e-9; labels exactly"]
